@@ -102,6 +102,32 @@ pub fn judge_lex(text: &str) -> Verdict {
 
 /// reader level: the value of 'TEXT
 pub fn judge_read(it: &mut Interp, text: &str) -> Verdict {
+    let o = it.eval(&format!("'{}", text));
+    judge_read_outcome(text, o)
+}
+
+/// the same text read from a FILE (`'TEXT` as the whole program): the file reader ends every line
+/// with LF (CRLF becomes LF, a missing final newline is supplied) and must change nothing else
+pub fn judge_read_file(it: &mut Interp, text: &str, scratch: &std::path::Path) -> Verdict {
+    let mut normal = text.replace("\r\n", "\n");
+    if !normal.ends_with('\n') {
+        normal.push('\n');
+    }
+    if std::fs::write(scratch, format!("'{}", text)).is_err() {
+        return Verdict::Excluded("scratch file not writable");
+    }
+    let interp = &mut it.it;
+    let p = scratch.to_path_buf();
+    let o = match guarded(|| interp.eval_file(p)) {
+        Ok(Ok(Some(v))) => Outcome::Val(crate::drive::obs_of(&v)),
+        Ok(Ok(None)) => Outcome::Val(crate::drive::Obs::NoValue),
+        Ok(Err(e)) => Outcome::Err(crate::drive::classify(&e), e.location),
+        Err(p) => Outcome::Panic(p),
+    };
+    judge_read_outcome(&normal, o)
+}
+
+fn judge_read_outcome(text: &str, o: Outcome) -> Verdict {
     let want = reflex::tokenize(text, Mode::default());
     let toks = match &want {
         Lexed::Unsupported(w) => return Verdict::Excluded(w),
@@ -119,7 +145,6 @@ pub fn judge_read(it: &mut Interp, text: &str) -> Verdict {
             Err(ReadError::Unexpected(w)) => Err(w),
         },
     };
-    let o = it.eval(&format!("'{}", text));
     match (&expected, &o) {
         (Ok(d), Outcome::Val(ob)) => {
             let mut m = Machine::new(POLICIES[0]);
@@ -375,6 +400,24 @@ pub fn state_texts(pairs_too: bool) -> Vec<String> {
     out
 }
 
+/// (5) long texts: one quoted list of N copies of an element, N = 1..=300 (state that builds up
+/// while ONE text is read), and N lists nested in one another, N = 1..=150
+pub const LADDER_ELEMENTS: &[&str] = &["a", "(1 . 2)", "#(1)", "'x", "\"s\\\"\"", "#\\a", "1.5", "(a (b . c))", "|x y|", "; c\n a", "()", "(a . (b . (c)))"];
+pub fn ladder_texts() -> Vec<String> {
+    let mut out = vec![];
+    for e in LADDER_ELEMENTS {
+        for n in 1..=300usize {
+            out.push(format!("({})", vec![*e; n].join(" ")));
+        }
+    }
+    for n in 1..=150usize {
+        out.push(format!("{}a{}", "(".repeat(n), ")".repeat(n)));
+        out.push(format!("{}a . b{}", "(".repeat(n), ")".repeat(n)));
+        out.push(format!("{}a{}", "#(".repeat(n), ")".repeat(n)));
+    }
+    out
+}
+
 pub fn run(ctx: &Ctx) -> i32 {
     let maxlen: usize = std::env::var("C06_LEN").ok().and_then(|s| s.parse().ok()).unwrap_or(if ctx.thorough() { 6 } else { 5 });
     let read_len = if ctx.thorough() { 5 } else { 4 };
@@ -387,9 +430,14 @@ pub fn run(ctx: &Ctx) -> i32 {
     let n_strings = *offsets.last().unwrap();
     let pairs = pair_texts();
     let treetexts = tree_texts(if ctx.thorough() { 5 } else { 4 }, if ctx.thorough() { 5 } else { 4 });
-    let statetexts = state_texts(true);
+    let mut statetexts = state_texts(true);
+    let n_state = statetexts.len();
+    statetexts.extend(ladder_texts());
     let total = n_strings + pairs.len() as u64 + treetexts.len() as u64 + statetexts.len() as u64;
     let (offs, pr, tt, stt) = (&offsets, &pairs, &treetexts, &statetexts);
+    let scratch_dir = std::path::PathBuf::from(format!("/verif/target/scratch/c06-{}", std::process::id()));
+    let _ = std::fs::create_dir_all(&scratch_dir);
+    let sd = &scratch_dir;
     let acc = par::sweep(
         total,
         4096,
@@ -403,14 +451,25 @@ pub fn run(ctx: &Ctx) -> i32 {
             } else if i < n_strings + pr.len() as u64 + tt.len() as u64 {
                 (tt[(i - n_strings - pr.len() as u64) as usize].clone(), "datum-trees", true)
             } else {
-                let t = stt[(i - n_strings - pr.len() as u64 - tt.len() as u64) as usize].clone();
-                // reader level for the single-character insertions (the pair insertions are lexed only)
-                let single = t.chars().count() <= 8 && (i - n_strings - pr.len() as u64 - tt.len() as u64) % 7 == 0;
-                (t, "ascii-in-every-lexer-state", single)
+                let k = (i - n_strings - pr.len() as u64 - tt.len() as u64) as usize;
+                let t = stt[k].clone();
+                if k >= n_state {
+                    (t, "long-texts", true)
+                } else {
+                    // reader level for the single-character insertions (the pair insertions are lexed only)
+                    let single = t.chars().count() <= 8 && k % 7 == 0;
+                    (t, "ascii-in-every-lexer-state", single)
+                }
             };
             let mut vs = vec![("lexer", judge_lex(&text))];
             if reader {
                 vs.push(("reader", judge_read(it, &text)));
+                // texts with line structure (or blanks that could be taken for padding) also from a file
+                // (every 8th of the datum-tree layouts: they repeat the same few line structures)
+                if space != "strings" && (space != "datum-trees" || i % 8 == 0) && (text.contains('\n') || text.contains('\r') || text.ends_with(' ') || text.ends_with('\t')) {
+                    let f = sd.join(format!("{:?}.scm", std::thread::current().id()).replace(|c: char| !c.is_ascii_alphanumeric() && c != '.', "_"));
+                    vs.push(("reader-file", judge_read_file(it, &text, &f)));
+                }
             }
             for (level, v) in vs {
                 acc.evals += 1;
@@ -459,8 +518,8 @@ pub fn run(ctx: &Ctx) -> i32 {
             tier: ctx.tier_name(),
             seed: ctx.seed,
             exhaustive: true,
-            rule: format!("(1) every string of length <= {} over the alphabet {:?} at lexer level (tokens) and, up to length {}, at reader level ('TEXT through eval); (2) every ordered pair of {} token representatives x {} separators x 5 contexts; (3) every datum tree (12 leaf kinds, lists, dotted tails, vectors, quote) up to the node bound under every layout plan (all separator assignments for few gaps, single-gap deviations + uniform layouts otherwise); (4) every ASCII character 0x20-0x7e, tab, CR, LF - and every ordered pair of them - inserted after each of {} prefixes that leave the scanner inside each token class, followed by each suffix; distinct = distinct token sequences / values", maxlen, ALPHABET, read_len, TOKEN_REPS.len(), SEPARATORS.len(), STATE_PREFIXES.len()),
-            bounds: json!({"strings": n_strings, "max_len": maxlen, "reader_level_max_len": read_len, "pair_texts": pairs.len(), "tree_texts": treetexts.len(), "ascii_state_texts": statetexts.len()}),
+            rule: format!("(1) every string of length <= {} over the alphabet {:?} at lexer level (tokens) and, up to length {}, at reader level ('TEXT through eval); (2) every ordered pair of {} token representatives x {} separators x 5 contexts; (3) every datum tree (12 leaf kinds, lists, dotted tails, vectors, quote) up to the node bound under every layout plan (all separator assignments for few gaps, single-gap deviations + uniform layouts otherwise); (4) every ASCII character 0x20-0x7e, tab, CR, LF - and every ordered pair of them - inserted after each of {} prefixes that leave the scanner inside each token class, followed by each suffix; (5) one quoted list of N copies of each of {} elements for every N <= 300 and N-fold nested lists / dotted lists / vectors for every N <= 150; texts of (2)-(5) that contain line breaks or end in a blank are also read from a FILE (eval_file) and must denote the same datum as the LF-normalised text; distinct = distinct token sequences / values", maxlen, ALPHABET, read_len, TOKEN_REPS.len(), SEPARATORS.len(), STATE_PREFIXES.len(), LADDER_ELEMENTS.len()),
+            bounds: json!({"strings": n_strings, "max_len": maxlen, "reader_level_max_len": read_len, "pair_texts": pairs.len(), "tree_texts": treetexts.len(), "ascii_state_texts": n_state, "long_texts": statetexts.len() - n_state}),
             assumptions: vec!["reflex: R7RS 7.1.1 restricted to the supported token classes, self-tested on the repository's own lexer vectors; texts using unsupported lexical syntax are only counted".into()],
             wall_s: ctx.elapsed(),
             extra: json!({}),
